@@ -180,10 +180,24 @@ def weights(ctx, obs, rule='WEIGHT'):
                   f'weights `{ast.unparse(e)[:90]}` (one value per RDM when read from rdm_descriptors) are multiplied with the '
                   f'(n_rdm, n_pair) array as they are: numpy aligns them with the pair axis (broadcast error / wrong pairing)',
                   '', where(prog, f, c.node))
-        masked = any(isinstance(n, ast.Call) and _leaf(n.func) in ('isnan', 'isfinite') for n in ast.walk(e))
+        # on every path on which weights are given (the `weights is not None` arm forced), the weights that reach _mean carry the
+        # NaN mask: each alternative reaching definition is inspected, not just one of them
+        wparam = f.pos_params[1] if len(f.pos_params) > 1 else 'weights'
+        given = [n for n in ast.walk(f.node) if isinstance(n, ast.If) and isinstance(n.test, ast.Compare) and len(n.test.ops) == 1
+                 and isinstance(n.test.ops[0], ast.IsNot) and isinstance(n.test.left, ast.Name) and n.test.left.id == wparam
+                 and isinstance(n.test.comparators[0], ast.Constant) and n.test.comparators[0].value is None]
+        if given:
+            rf = ctx.dep.analyze(q, force={id(g): 'body' for g in given})
+            ef = Inliner(rf, None, ('self', wparam)).inline(c.node.args[1])
+            alts = _phi_alternatives(ef)
+        else:
+            alts = [e]
+        unmasked = [a for a in alts if not any(isinstance(n, ast.Call) and _leaf(n.func) in ('isnan', 'isfinite') for n in ast.walk(a))]
+        masked = not unmasked
         obs.check(masked, rule, q, 'weights of missing entries are masked out of the weight sum',
-                  'weights are not masked by the NaN pattern of the dissimilarities: the weighted mean divides by weights of '
-                  'entries that are missing', '', where(prog, f, c.node))
+                  'weights are not masked by the NaN pattern of the dissimilarities' +
+                  (f' when they are `{ast.unparse(unmasked[0])[:70]}`' if unmasked else '') + ': the weighted mean divides by '
+                  'weights of entries that are missing', '', where(prog, f, c.node))
     # _mean itself: numerator and denominator are nan-aware sums over the RDM axis
     q2 = 'rdm.combine._mean'
     f2 = prog.func(q2)
@@ -247,3 +261,13 @@ def rescale_mask(ctx, obs, rule='MASK'):
                           f'`{norm(s)}` masks by `{norm(arg)}`', '', where(prog, f, s))
     if n < 2:
         obs.unk(rule, q, 'NaN masks in _rescale', f'{n} masks found')
+
+
+def _phi_alternatives(e: ast.expr, limit=16):
+    """expand PHI(...) alternatives (joins of several reaching definitions) at the top of an inlined expression"""
+    if isinstance(e, ast.Call) and isinstance(e.func, ast.Name) and e.func.id == 'PHI':
+        out = []
+        for a in e.args:
+            out += _phi_alternatives(a, limit)
+        return out[:limit]
+    return [e]
